@@ -1075,6 +1075,45 @@ def unwrap_doc(rng, ds, de, cfg, unit, depth, tag_units, first_line, k_between=N
     return lines, exp
 
 
+def nested_unwrap_doc(rng, ds, de, unit, depth):
+    """nested unwrap-blocks (code lines between all seams, so no blank-line interplay); returns
+    (lines, expected lines): a surviving line with ib leading blanks loses the union over the enclosing
+    blocks B of [min(ofs_B, ib), min(ofs_B + len_B, ib))"""
+    lines = []          # (text, kind, blocks) kind: 'keep' | 'drop'
+    def lead(l):
+        return len(l) - len(l.lstrip(" \t"))
+    def build(level, ind, blocks):
+        name = "tl"
+        blk = {"ofs": len(ind), "len": None}
+        lines.append((ind + ds + name + " " + G.EXPIRED + " unwrap-block" + de, "drop", list(blocks)))
+        lines.append((ind + "if (x) {", "drop", list(blocks)))
+        inner = blocks + [blk]
+        first = ind + rng.choice([unit, unit, unit + unit, " ", ""]) + rng.choice(["foo();", "あ = 1"])
+        blk["len"] = max(0, lead(first) - len(ind))
+        lines.append((first, "keep", list(inner)))
+        for _ in range(rng.randint(0, 2)):
+            lines.append((ind + rng.choice([unit, unit + unit, unit + " ", "", "\t"]) + rng.choice(["bar", "y;", "é"]), "keep", list(inner)))
+        if level < depth:
+            build(level + 1, ind + rng.choice([unit, unit, unit + unit, ""]), inner)
+            lines.append((ind + rng.choice([unit, unit + unit]) + "after();", "keep", list(inner)))
+        lines.append((ind + "}", "drop", list(blocks)))
+        lines.append((ind + ds + "/" + name + de, "drop", list(blocks)))
+    lines.append((rng.choice(["a", unit + "a"]), "keep", []))
+    build(1, unit * rng.randint(0, 2), [])
+    lines.append((rng.choice(["b", unit + "b"]), "keep", []))
+    src = [t for t, _, _ in lines]
+    exp = []
+    for t, kind, blocks in lines:
+        if kind == "drop":
+            continue
+        ib = lead(t)
+        gone = set()
+        for b in blocks:
+            gone.update(range(min(b["ofs"], ib), min(b["ofs"] + b["len"], ib)))
+        exp.append("".join(ch for i, ch in enumerate(t) if i not in gone))
+    return src, exp
+
+
 def gen_c11(rng, tier):
     cases, meta = [], {}
     n = 3000 if tier == "quick" else 40000
@@ -1094,6 +1133,14 @@ def gen_c11(rng, tier):
         if first and tu > 0:
             kc = "KF1 first-line block: indentation of the tag line is not tidied at the start of the file"
         meta[cid] = {"stream": "unwrap", "expect": ex, "known_class": kc, "why": "unwrap-block four-line removal and dedent"}
+    for i in range(800 if tier == "quick" else 10000):
+        ds, de = rng.choice(G.DELIMS)
+        unit = rng.choice(["  ", "    ", "\t"])
+        src_l, exp_l = nested_unwrap_doc(rng, ds, de, unit, rng.randint(1, 3))
+        fin = rng.random() < 0.5
+        cid = f"n{i}"
+        cases.append(G.dcase(cid, ds, de, "\n".join(src_l) + ("\n" if fin else ""), G.Cfg("tl", "rm", "+00:00", G.NOW, ("x",))))
+        meta[cid] = {"stream": "nested-unwrap", "expect": "\n".join(exp_l) + ("\n" if fin else ""), "why": "nested unwrap-blocks: four lines per block removed, body dedented by every enclosing block"}
     docs = doc_cases(rng, 800 if tier == "quick" else 8000, "d", p_unwrap=0.6, p_mut=0.0)
     return merge(corpus_cases(), (cases, meta), docs, degenerate_unwrap_cases(rng, "quick", "g"))
 
